@@ -34,6 +34,16 @@ def parseCache (a : Array Json) : Option Cache :=
     let ds ← ds.toList.mapM parseDP
     pure (r, ds))
 
+/-- data points handed over by other threads while the request is in flight (absent = none) -/
+def parseDuring (j : Json) : List (Run × DP) :=
+  match getArr? j "during" with
+  | none => []
+  | some a => a.toList.filterMap (fun x => do
+      let r ← getNat? x "run"
+      let d ← getObj? x "dp"
+      let d ← parseDP d
+      pure (r, d))
+
 def parseEvent (j : Json) : Option Event := do
   let k ← getStr? j "k"
   match k with
@@ -45,10 +55,10 @@ def parseEvent (j : Json) : Option Event := do
   | "send" => do
       let now ← getNat? j "now"
       let s ← parseScript j "script"
-      pure (.sendData now s)
+      pure (.sendData now s (parseDuring j))
   | "close" => do
       let s ← parseScript j "script"
-      pure (.close s)
+      pure (.close s (parseDuring j))
   | _ => none
 
 def critJson (t : CritTab) : Json :=
@@ -114,11 +124,15 @@ def handle (op : String) (j : Json) : Option Json :=
       let start ← getStr? j "start"
       let env ← getStr? j "env"
       let source ← getStr? j "source"
-      let pinned := (getBool? j "pinned").getD false
+      let variant := (getStr? j "variant").getD "repaired"
       let evs ← getArr? j "events"
       let evs ← evs.toList.mapM parseEvent
       let s0 := init ⟨start, env, source⟩ v2 t0
-      let s := if pinned then runPinned s0 evs else run s0 evs
+      let s ← match variant with
+        | "repaired" => some (run s0 evs)
+        | "unlocked" => some (runUnlocked s0 evs)
+        | "pinned" => some (runPinned s0 evs)
+        | _ => none
       pure (Json.mkObj [
         ("reqs", Json.arr (s.reqs.map reqJson).toArray),
         ("cache", cacheJson s.cache),
